@@ -1,7 +1,10 @@
 package dag
 
 import (
+	"fmt"
+
 	"github.com/MichaelMure/git-bug/entities/identity"
+	"github.com/MichaelMure/git-bug/repository"
 	"github.com/MichaelMure/git-bug/util/lamport"
 	"github.com/MichaelMure/git-bug/zzverif/rt"
 	"github.com/MichaelMure/git-bug/zzverif/vrepo"
@@ -165,4 +168,31 @@ func VH_C08_sign() {
 		}
 	}
 	rt.Observe("signed", rec.Signed)
+}
+
+// VH_C07_publickey: a remote serves an identity with a key (public part only, as stored in
+// git) and a commit carrying a signature header. Whatever the signature is worth, reading
+// the commit must end in acceptance or an error, not in a crash of the process.
+func VH_C07_publickey() {
+	vhResetPacks()
+	r := vrepo.New()
+	author := &vhAuthor{id: vhHexId(0xa9), keys: []*identity.Key{identity.VHPublicOnlyKey()}}
+	rec := vhNewPack([]Operation{vhNewOp(0, author)}, author)
+	blob := r.AddBlob([]byte(rec.token))
+	empty := r.AddBlob([]byte{})
+	tree := r.AddTree([]repository.TreeEntry{
+		{ObjectType: repository.Blob, Hash: empty, Name: fmt.Sprintf(versionEntryPrefix+"%d", vhDef.FormatVersion)},
+		{ObjectType: repository.Blob, Hash: blob, Name: opsEntryName},
+		{ObjectType: repository.Blob, Hash: empty, Name: editClockEntryPrefix + "1"},
+		{ObjectType: repository.Blob, Hash: empty, Name: createClockEntryPrefix + "1"},
+	})
+	h := r.AddCommit(tree)
+	r.Commits[h].Signed = true
+	r.Commits[h].SigOK = rt.Choose(2) == 1
+	commit, _ := r.ReadCommit(h)
+	var err error
+	panicked, _ := rt.Try(func() { _, err = readOperationPack(vhDef, r, nil, commit) })
+	rt.Cover("signed-commit-by-a-remote-key")
+	rt.Assert(!panicked, "signed-commit-of-a-public-only-key-no-crash")
+	_ = err
 }
